@@ -1,6 +1,9 @@
 /-
 Props/C02 — Word-level bit kernels are exact on every word.
-Property theorems only; helper lemmas live in Proof/Kernels.lean.
+Property theorems only; helper lemmas live in Proof/Kernels.lean, Proof/KernelsList.lean (list
+lemmas), Proof/KernelsBP.lean, Proof/KernelsBlock.lean, Proof/KernelsSelect.lean, Proof/KernelsPdep.lean.
+Every theorem is for all 2^64 words and every `k`/`p : Nat` (a Rust `u32` is the special case
+`< 2^32`; no theorem needs that bound).
 -/
 import SuccinctlyVerif.Proof.Kernels
 import SuccinctlyVerif.Proof.KernelsBP
@@ -16,6 +19,9 @@ theorem popcount_portable_eq (x : BitVec 64) : popcountPortable x = popcount x :
 
 /-- `u64::count_ones` as modelled (`cpop`) is the bit-at-a-time count. -/
 theorem popc_eq (x : BitVec 64) : popc x = popcount x := Kernels.popc_eq_popcount x
+
+example : popcountPortable 0x8000_0000_00F0_F0F0#64 = 13 ∧ popc 0x8000_0000_00F0_F0F0#64 = 13
+    ∧ popcountPortable (BitVec.allOnes 64) = 64 := by decide +kernel
 
 /-- `select_in_byte` over the generated 2048-entry table = position of the k-th set bit of the
 byte (8 if none), for every byte and every `k` (including `k ≥ 8`). -/
@@ -134,5 +140,12 @@ example : selectPdep 0x8000_0000_00F0_F0F0#64 12 = 63
     ∧ selectPdep (BitVec.allOnes 64) 63 = 63
     ∧ selectPdep 0x8000_0000_00F0_F0F0#64 13 = 64 := by
   decide +kernel
+
+/-- Dispatch independence: the three `select_in_word` paths (CTZ loop, broadword, PDEP) return the
+same answer on every word and every `k`, so the runtime choice between them (CPU detection,
+`k`-threshold) cannot change a result. -/
+theorem select_paths_agree (x : BitVec 64) (k : Nat) :
+    selectCtz x k = selectBroadword x k ∧ selectBroadword x k = selectPdep x k := by
+  rw [select_ctz_eq, select_broadword_eq, select_pdep_eq]; exact ⟨rfl, rfl⟩
 
 end SV.Props.C02
